@@ -738,6 +738,43 @@ def run(chk):
     import rules.C13 as c13
     c13.run(core.Only(chk, {"C13.ijk"}))
 
+    # ---- C10.create: when the writer opens a new summary stream
+    r_cr = chk.rule("C10.create", "SummaryImplementation::createSmryStreamIfNecessary(report_step) creates (and thereby truncates) the stream exactly when there is none yet, or output is not unified and the last creation was for a STRICTLY earlier report step (decision table over: stream present, unified, prevCreate < report_step); the creating block opens the file of that report_step and records it as the last creation.  With `<=` every further ministep of a report step re-creates the separate file and the earlier ministeps of that step are lost", floor=2)
+    from verif import dtable
+    cs = [f for f in fx.fns if f["n"] == "createSmryStreamIfNecessary" and f.get("body")]
+    if len(cs) != 1:
+        raise core.AnalysisBroken("createSmryStreamIfNecessary: %d definitions" % len(cs))
+    cs = cs[0]
+    rp = cs["params"][0]["n"]
+    dc = [(v, n) for n in stmt_list(cs["body"]) if n["k"] == "Decl" for v in n["vars"] if isinstance(v.get("init"), dict) and (v.get("t") or "").replace("const ", "") in ("bool", "auto")]
+    cif = [n for n in stmt_list(cs["body"]) if n["k"] == "If"]
+    if len(dc) != 1 or len(cif) != 1 or show(strip(cif[0]["cond"])) != dc[0][0]["n"]:
+        raise core.AnalysisBroken("createSmryStreamIfNecessary: the shape `const auto do_create = ...; if (do_create) {...}` was not found")
+    A_S, A_U, A_L = "this.stream_", "this.unif_.set", "this.prevCreate_ < %s" % rp
+    rows = {}
+    unknown = None
+    import itertools as _it
+    for bits in _it.product((True, False), repeat=3):
+        val = dict(zip((A_S, A_U, A_L), bits))
+        try:
+            rows[bits] = dtable.bool_term(dc[0][0]["init"], {}, {dtable.norm(k_).replace(".operator bool()", ""): v_ for k_, v_ in val.items()} | {A_S + ".operator bool()": val[A_S]})
+        except dtable._Need as need:
+            unknown = need.atom
+            break
+    chk.instance(r_cr, "when", sample=dict(condition=show(dc[0][0]["init"]), table={str(k_): v_ for k_, v_ in rows.items()}))
+    if unknown is not None:
+        chk.violation(r_cr, "when", "createSmryStreamIfNecessary decides on `%s`, which is none of: stream present, unified output, prevCreate_ < report_step (condition: %s)" % (unknown, show(dc[0][0]["init"])), cs["file"], dc[0][1]["l"])
+    else:
+        wrong = [b_ for b_, got in rows.items() if got != ((not b_[0]) or ((not b_[1]) and b_[2]))]
+        if wrong:
+            chk.violation(r_cr, "when", "createSmryStreamIfNecessary creates the stream under %s; it must do so exactly when no stream exists, or output is separate and the last creation was for an earlier report step (differs for (stream, unified, earlier) = %s)" % (show(dc[0][0]["init"]), wrong), cs["file"], dc[0][1]["l"])
+    tb = [show(x) for x in stmt_list(cif[0]["then"])]
+    ok_b = (len(tb) == 2 and re.match(r"\(this\.stream_ = Opm::EclIO::OutputStream::createSummaryFile\(this\.rset_, %s, this\.fmt_, this\.unif_\)\)$" % rp, tb[0]) is not None
+            and tb[1] == "(this.prevCreate_ = %s)" % rp and cif[0].get("else") is None)
+    chk.instance(r_cr, "block", sample=dict(statements=tb))
+    if not ok_b:
+        chk.violation(r_cr, "block", "createSmryStreamIfNecessary: the creating block must open createSummaryFile(rset_, report_step, fmt_, unif_) and record prevCreate_ = report_step (found %s)" % tb, cs["file"], cif[0]["l"])
+
     from verif import narrow
     narrow.run_offwidth(chk, "C10")
 
